@@ -16,7 +16,7 @@
 (***************************************************************************)
 EXTENDS Integers, Sequences, FiniteSets, TLC
 
-VARIABLES g, content, tags, indexed, stray
+VARIABLES g, content, tags, indexed, stray, tagann   \* tagann: reference -> annotation signature of the tagged descriptor
 Rng(s) == {s[i] : i \in 1..Len(s)}
 
 Nodes == 1..g.n
@@ -69,7 +69,9 @@ Present == content \cup stray
 St(res, C, T, Ix, S) == [res |-> res, content |-> C, tags |-> T, indexed |-> Ix, stray |-> S]
 Same(res) == St(res, content, tags, indexed, stray)
 Expect(r) ==
-  CASE r.op = "push" ->
+  CASE r.op = "pushbad" ->     \* bytes that do not match the descriptor: refused, nothing changes
+         IF r.n \in Present THEN Same(IF g.kind = "file" /\ g.names[r.n] # "" THEN "dupname" ELSE "exists") ELSE Same("refused")
+    [] r.op = "push" ->
          IF r.n \in Present THEN Same(IF g.kind = "file" /\ g.names[r.n] # "" THEN "dupname" ELSE "exists")
          ELSE St("ok", content \cup {r.n}, tags, IF IsOci /\ IsMan(r.n) THEN indexed \cup {r.n} ELSE indexed, stray)
     [] r.op = "tag" ->
